@@ -444,7 +444,21 @@ fn walk_virtual(inode: &Inode, prefix: &str, tree: &mut Tree) {
     }
 }
 
-fn run_real(script: &str, dir: &Path, valgrind: bool) -> Result<Obs, String> {
+#[derive(Clone, Copy, PartialEq, Eq)]
+enum Mode {
+    Plain,
+    Valgrind,
+    /// the harness binary built with AddressSanitizer (`./check` builds it and passes its path in VCHECK_ASAN_EXE)
+    Asan,
+}
+
+fn asan_exe() -> Option<PathBuf> {
+    let p = PathBuf::from(std::env::var_os("VCHECK_ASAN_EXE")?);
+    p.is_file().then_some(p)
+}
+
+fn run_real(script: &str, dir: &Path, mode: Mode) -> Result<Obs, String> {
+    let valgrind = mode == Mode::Valgrind;
     let _ = std::fs::remove_dir_all(dir);
     std::fs::create_dir_all(dir).map_err(|e| e.to_string())?;
     use std::os::unix::fs::PermissionsExt;
@@ -462,7 +476,7 @@ fn run_real(script: &str, dir: &Path, valgrind: bool) -> Result<Obs, String> {
         }
     }
     std::fs::set_permissions(dir, std::fs::Permissions::from_mode(0o755)).ok();
-    let exe = std::env::current_exe().map_err(|e| e.to_string())?;
+    let exe = if mode == Mode::Asan { asan_exe().ok_or("no ASan binary")? } else { std::env::current_exe().map_err(|e| e.to_string())? };
     let mut cmd = if valgrind {
         let mut c = std::process::Command::new("valgrind");
         c.args(["-q", "--error-exitcode=99", "--errors-for-leak-kinds=none", "--trace-children=no"]).arg(&exe);
@@ -475,6 +489,7 @@ fn run_real(script: &str, dir: &Path, valgrind: bool) -> Result<Obs, String> {
         .env_clear()
         .env("PATH", "/bin:/usr/bin")
         .env("LANG", "C")
+        .env("ASAN_OPTIONS", "detect_leaks=0:exitcode=97:abort_on_error=0:allocator_may_return_null=1")
         .stdin(std::process::Stdio::null())
         .stdout(std::process::Stdio::piped())
         .stderr(std::process::Stdio::piped());
@@ -485,7 +500,7 @@ fn run_real(script: &str, dir: &Path, valgrind: bool) -> Result<Obs, String> {
     let mut child = cmd.spawn().map_err(|e| e.to_string())?;
     // generous wall-clock watchdog; expiry is inconclusive, not a verdict
     let start = std::time::Instant::now();
-    let limit = if valgrind { 300 } else { 30 };
+    let limit = if valgrind { 300 } else if mode == Mode::Asan { 120 } else { 30 };
     // read the pipes on threads so that a chatty child cannot block
     let mut so = child.stdout.take().unwrap();
     let mut se = child.stderr.take().unwrap();
@@ -543,6 +558,11 @@ fn run_real(script: &str, dir: &Path, valgrind: bool) -> Result<Obs, String> {
         if valgrind && o.status == "exit:99" && String::from_utf8_lossy(&stderr).lines().any(|l| l.starts_with("==")) {
             Obs {
                 stdout: format!("VALGRIND REPORT\n{}", String::from_utf8_lossy(&stderr)),
+                ..o
+            }
+        } else if mode == Mode::Asan && String::from_utf8_lossy(&stderr).contains("ERROR: AddressSanitizer") {
+            Obs {
+                stdout: format!("ASAN REPORT\n{}", String::from_utf8_lossy(&stderr).chars().take(6000).collect::<String>()),
                 ..o
             }
         } else {
@@ -676,6 +696,41 @@ fn diff(r: &Obs, v: &Obs) -> (String, String) {
     (kinds.join("+"), d.join("\n"))
 }
 
+
+/// Fixed scripts that walk through the `unsafe` surface of `RealSystem` (libc FFI: getcwd buffers,
+/// directory streams, argv/envp arrays for execve, passwd look-ups, confstr, rlimits, times,
+/// sigaction/sigprocmask structures, fd_sets for select). They use external utilities and
+/// machine-dependent values, so they are not part of the differential comparison: the verdict is
+/// the sanitizer's (AddressSanitizer in both tiers, valgrind memcheck as well in the thorough tier).
+fn ffi_surface_scripts() -> Vec<(&'static str, String)> {
+    let n200 = "a".repeat(200);
+    let n250 = "b".repeat(250);
+    let mut v: Vec<(&'static str, String)> = Vec::new();
+    v.push(("long-cwd", format!("n={n200}\nfor i in 1 2 3 4 5 6 7 8 9 10 11 12 13 14 15 16 17 18 19 20 21 22 23 24; do mkdir \"$n\" || break; cd \"$n\" || break; pwd >/dev/null; done\necho ${{#PWD}}; pwd | wc -c; cd -P . ; echo $?; (cd .. && pwd | wc -c); x=$(pwd); echo ${{#x}}; cd \"$OLDPWD\"; echo $?\n")));
+    v.push(("big-directory", format!("mkdir big; cd big; l={n250}\nfor i in 0 1 2 3 4 5 6 7 8 9; do for j in 0 1 2 3 4 5 6 7 8 9; do : >\"$i$j$l\"; : >\"$i$j\"; done; done\nset -- *; echo $#; set -- ?? ; echo $#; set -- *b ; echo $#; set -- [0-4]*bb ; echo $#; echo */ ; echo .* ; cd ..; set -- big/*; echo $#; set -- */*b; echo $#\n")));
+    v.push(("huge-argv-envp", "a=xxxxxxxxxx; a=$a$a$a$a$a$a; set -- \"$a\"\nfor i in 1 2 3 4 5 6 7 8 9 10 11 12; do set -- \"$@\" \"$@\"; done\necho $#; /bin/true \"$@\"; echo $?; /bin/echo \"$@\" | wc -c\nfor i in 1 2 3 4 5 6 7 8 9 10 11 12 13 14 15 16 17 18 19 20; do for j in a b c d e f g h i j; do export V$i$j=\"$a$i$j\"; done; done\nenv | wc -l; V=1 W= X=\"$a\" env | wc -c; (exec env) | wc -l; export E=; env | wc -l\n".to_string()));
+    v.push(("passwd", "echo ~root ~nobody ~daemon ~nosuchuser_xyz ~/x ~; HOME=/tmp; echo ~ ~/ ~root/x; x=~root:~nobody; echo $x\n".to_string()));
+    v.push(("command-search", "command -p true; echo $?; command -pv ls; command -v ls cd nosuch; type ls cd nosuch; command -V ls; command -p -v sh; PATH= command -p true; echo $?; PATH=/nonexistent:/bin:. command -v ls; hash 2>/dev/null; unset PATH; command -p true; echo $?; ls >/dev/null; echo $?\n".to_string()));
+    v.push(("ulimit", "ulimit -a; for o in c d e f i l m n q r R s t u v w x; do ulimit -$o; ulimit -H -$o; ulimit -S -$o; done 2>&1; ulimit -n 64; ulimit -n; ulimit -S -c 0; ulimit -c; ulimit -f unlimited; ulimit -H -n 63; ulimit -n 64; echo $?\n".to_string()));
+    v.push(("times", "times; (times); x=$(times); echo \"$x\" | wc -l; /bin/true; times >/dev/null\n".to_string()));
+    v.push(("signals", "kill -l; kill -l 1 2 15 130 143; kill -l HUP TERM; trap -p\nfor s in HUP INT QUIT USR1 USR2 TERM ALRM CHLD CONT TSTP TTIN TTOU WINCH URG PIPE RTMIN RTMIN+1 RTMAX-1 RTMAX; do trap \"echo got $s\" $s; done; trap\nkill -s USR1 $$; kill -s RTMIN $$; kill -s RTMAX $$; kill -s CONT $$; kill -s WINCH $$; kill -s CHLD $$; kill -0 $$; trap - USR1 RTMIN; trap '' USR2 RTMAX-1; kill -s USR2 $$; kill -s RTMAX-1 $$; trap; (trap; kill -s USR2 $$; trap 'echo sub' TERM; kill -s TERM 0) ; echo $?; trap - TERM; (kill -s TERM $$; echo not) ; echo $?\n".to_string()));
+    v.push(("umask", "umask; umask -S; umask 027; : >u1; mkdir ud; umask u=rwx,g=rx,o=; umask -S; umask a-w; umask; umask 777; : >u2; umask 0; : >u3; ls -l u1 u2 u3 | cut -c1-10\n".to_string()));
+    v.push(("read-and-heredoc", "gen 5000 3 >big; n=0; while read -r l; do n=$((n+1)); done <big; echo $n; read a b c <f0; echo \"$a|$b|$c\"; IFS=: read x y </etc/passwd; echo $x; gen 3000 5 | { read -r p; read -r q; echo ${#p} ${#q}; }\ncat <<E1; cat <<-E2; cat <<'E3'\n$a $(echo sub) $((1+2)) `echo bq`\nE1\n\t\ttabbed $x\n\tE2\n$a raw\nE3\nv=$(gen 9000 1); cat <<E4 | wc -c\n$v$v\nE4\n".to_string()));
+    v.push(("many-children", "for i in 1 2 3 4 5 6 7 8 9 10 11 12 13 14 15 16 17 18 19 20 21 22 23 24 25 26 27 28 29 30; do (exit $i)& done; wait; echo $?; for i in 1 2 3 4 5 6 7 8; do /bin/true & p=\"$p $!\"; done; wait $p; echo $?; wait 1; echo $?; jobs; true | false | (exit 3) | true; echo $?; set -o pipefail; true | (exit 4) | false | true; echo $?\n".to_string()));
+    v.push(("symlinks", "ln -s d1 sl; ln -s nowhere dangling; ln -s ../f0 d1/up; cd sl; pwd; pwd -P; cd -P ../sl; pwd; cd \"$OLDPWD\"; cd -L ..; echo \"$PWD\" \"$OLDPWD\"; echo s*/* d*; echo */up; cat sl/up; echo x >dangling; cat nowhere; cd dangling; echo $?; cd sl; pwd; cd -P ..; pwd\n".to_string()));
+    v.push(("job-control-without-terminal", "set -m; /bin/true; echo $?; (exit 3); echo $?; sleep 0 & wait; echo $?; jobs; true | cat; sleep 0 & sleep 0 & jobs -l >/dev/null; jobs -p | wc -l; wait; fg 2>&1; bg 2>&1; set +m; echo done\n".to_string()));
+    v.push(("descriptors", "exec 3<>f0 4>&3 5<&-; lsfd x; echo a >&4; read l <&3; exec 3>&- 4>&-; echo a >&7; : 9>nine; exec 9<nine; exec 9<&-; exec 8>e8; ulimit -n 12; exec 7<f0 6<f0 5<f0; echo x >y; { echo z; } 4>&1; x=$(echo q); echo \"$x $?\"; true | true; echo $?; lsfd y\n".to_string()));
+    v.push(("getopts", "set -- -a -b val -cd -- x -e; while getopts ab:cd o; do echo \"$o $OPTARG $OPTIND\"; done; echo $OPTIND; OPTIND=1; while getopts :ab: o -b; do echo \"$o $OPTARG\"; done; OPTIND=1; getopts x o -y; echo \"$? $o\"\n".to_string()));
+    v.push(("big-pipes", "gen 200000 1 | relay | relay | sink; x=$(gen 70000 2); echo ${#x}; gen 65536 3 | { relay; } | cat | wc -c; gen 100000 4 >w1; relay <w1 | relay >w2; cmp w1 w2; echo $?\n".to_string()));
+    v.push(("exec-failures", "./f0; echo $?; /nonexistent/x; echo $?; d1; echo $?; ./d1; echo $?; (exec ./f0); echo $?; (exec /bin/true a b c); echo $?; (exec nosuchcommand_xyz); echo $?; chmod +x f1; ./f1; echo $?; echo '#!/bin/sh\necho script \"$@\"' >sc; chmod +x sc; ./sc 1 '2 3'; echo 'echo noshebang \"$0\" \"$@\"' >ns; chmod +x ns; ./ns x y; echo $?; (exec ./ns z); echo $?\n".to_string()));
+    v.push(("cd-errors", "CDPATH=d1:/ cd d2; pwd; cd \"$OLDPWD\"; cd /nonexistent; echo $?; cd f0; echo $?; cd ''; echo $?; cd -; unset OLDPWD; cd -; echo $?; unset HOME; cd; echo $?; HOME=d1 cd; pwd; cd /; cd ..; pwd; cd //; pwd; cd ///usr//bin/.././bin; pwd\n".to_string()));
+    v.push(("dot-scripts", "echo 'echo sourced $# $1; return 5; echo not' >s.sh; . ./s.sh; echo $?; . ./s.sh a b; PATH=.:$PATH; . s.sh; (. /nonexistent); echo $?; (. ./d1); echo $?; echo 'exit 6' >e.sh; (. ./e.sh); echo $?; gen 30000 7 >long.sh; (. ./long.sh) 2>/dev/null; echo $?\n".to_string()));
+    v.push(("wait-interrupted", "trap 'echo usr1' USR1; (sleep 0.2; kill -s USR1 $$)& wait; echo $?; wait; echo $?; trap 'echo chld' CHLD; /bin/true; (exit 1); sleep 0 & wait $!; echo $?; trap - CHLD; trap 'echo alrm' ALRM; (sleep 0.1; kill -s ALRM $$) & read x <&0; wait; echo end\n".to_string()));
+    v.push(("non-utf8-names", "f=$(printf 'n\\377m'); : >\"$f\"; echo * | od -c | head -3; for g in n*; do echo \"${#g}\"; done; cd \"$f\" ; echo $?; x=$(printf '\\200\\201'); echo \"${#x}\"; case $x in ??) echo two;; *) echo other;; esac; printf '\\303' >\"p$(printf '\\251')\"; echo p*\n".to_string()));
+    v.push(("nesting", "f() { case $1 in 0) echo bottom;; *) f $(($1-1));; esac; }; f 50; x=$(echo $(echo $(echo $(echo $(echo deep))))); echo $x; eval 'eval \"eval echo e3\"'; ( ( ( ( echo sub4 ) ) ) ); { { { echo grp; } 3>&1; } 4>&1; } 5>&1; echo $(f 10)\n".to_string()));
+    v
+}
+
 pub fn run(ctx: &Ctx) {
     let quick = ctx.quick();
     let n = if quick { 6000 } else { 150_000 };
@@ -685,6 +740,55 @@ pub fn run(ctx: &Ctx) {
     let pid = std::process::id();
     let have_valgrind = std::process::Command::new("valgrind").arg("--version").output().map(|o| o.status.success()).unwrap_or(false);
     let base = &base;
+
+    // sanitizer slice over the FFI surface of RealSystem
+    let have_asan = asan_exe().is_some();
+    let surface = ffi_surface_scripts();
+    let modes: Vec<Mode> = if quick { vec![Mode::Asan] } else { vec![Mode::Asan, Mode::Valgrind] };
+    let jobs: Vec<(usize, Mode)> = (0..surface.len()).flat_map(|k| modes.iter().map(move |m| (k, *m))).collect();
+    ctx.par_for(
+        jobs.len(),
+        |j| {
+            let (k, mode) = jobs[j];
+            let (name, script) = &surface[k];
+            if (mode == Mode::Asan && !have_asan) || (mode == Mode::Valgrind && !have_valgrind) {
+                return;
+            }
+            let outer = base.join(format!("verif-c19s-{pid}-{j}"));
+            let dir = outer.join("w");
+            let r = run_real(script, &dir, mode);
+            let _ = std::process::Command::new("chmod").args(["-R", "u+rwx"]).arg(&outer).status();
+            let _ = std::fs::remove_dir_all(&outer);
+            let tool = if mode == Mode::Asan { "asan" } else { "valgrind" };
+            match r {
+                Ok(o) => {
+                    if std::env::var_os("C19_DEBUG").is_some() {
+                        eprintln!("SURFACE {name} {tool} status={} stderr_empty={}\n{}=====", o.status, o.stderr_empty, o.stdout.chars().take(1500).collect::<String>());
+                    }
+                    ctx.count(&format!("ffi_surface_runs_under_{tool}"), 1);
+                    ctx.nontrivial(crate::util::fnv_str(&format!("surface\u{1}{name}\u{1}{tool}\u{1}{}", o.stdout)));
+                    if o.stdout.starts_with("ASAN REPORT") || o.stdout.starts_with("VALGRIND REPORT") {
+                        ctx.violation(format!("{tool}:ffi-surface:{name}"), format!("{tool} reported an error in the real-system run of the FFI-surface script `{name}`\nscript:\n{script}\n{}", o.stdout));
+                    } else if o.status.starts_with("signal:") && o.status != "signal:15" {
+                        ctx.violation(format!("{tool}:ffi-surface:{name}:{}", o.status), format!("the real-system run of the FFI-surface script `{name}` under {tool} died with {}\nscript:\n{script}\n{}", o.status, o.stdout));
+                    } else if o.stdout.lines().count() < 2 {
+                        // a script that printed nothing exercised nothing
+                        ctx.inconclusive.fetch_add(1, std::sync::atomic::Ordering::Relaxed);
+                        ctx.count(&format!("ffi_surface_silent({name},{tool})"), 1);
+                    }
+                }
+                Err(e) => {
+                    ctx.inconclusive.fetch_add(1, std::sync::atomic::Ordering::Relaxed);
+                    ctx.count(&format!("ffi_surface_inconclusive({name},{tool}: {})", e.chars().take(40).collect::<String>()), 1);
+                }
+            }
+        },
+        |j, msg| ctx.violation("harness-panic", format!("ffi surface job #{j}: {msg}")),
+    );
+    if !have_asan {
+        ctx.count("asan_not_available", 1);
+    }
+    let nasan = if !have_asan { 0 } else if quick { 1000 } else { 20_000 };
     ctx.par_for(
         n,
         |i| {
@@ -696,7 +800,7 @@ pub fn run(ctx: &Ctx) {
             if have_valgrind && i < nvalgrind {
                 // memcheck verdict only: valgrind changes descriptor limits and prints its own warnings,
                 // so this run is not part of the differential comparison
-                match run_real(&script, &dir, true) {
+                match run_real(&script, &dir, Mode::Valgrind) {
                     Ok(o) => {
                         ctx.count("real_runs_under_valgrind", 1);
                         if o.stdout.starts_with("VALGRIND REPORT") {
@@ -708,7 +812,21 @@ pub fn run(ctx: &Ctx) {
                     }
                 }
             }
-            let real = match run_real(&script, &dir, false) {
+            if i < nasan {
+                // AddressSanitizer verdict only (same reasoning as for valgrind)
+                match run_real(&script, &dir, Mode::Asan) {
+                    Ok(o) => {
+                        ctx.count("real_runs_under_asan", 1);
+                        if o.stdout.starts_with("ASAN REPORT") {
+                            ctx.violation("asan:report", format!("AddressSanitizer reported an error in the real-system run\nscript:\n{script}\n{}", o.stdout));
+                        }
+                    }
+                    Err(_) => {
+                        ctx.count("asan_runs_inconclusive", 1);
+                    }
+                }
+            }
+            let real = match run_real(&script, &dir, Mode::Plain) {
                 Ok(o) => o,
                 Err(e) if e.starts_with("BLOCKED") => {
                     let _ = std::fs::remove_dir_all(&outer);
@@ -741,7 +859,7 @@ pub fn run(ctx: &Ctx) {
             // the script as before it - whatever failed on the way
             if i % 4 == 0 && !features.iter().any(|f| *f == "ulimit") {
                 let probe = format!("lsfd @start\n{script}\nlsfd @end\n");
-                if let Ok(o) = run_real(&probe, &dir, false) {
+                if let Ok(o) = run_real(&probe, &dir, Mode::Plain) {
                     let internal = |tag: &str| -> Option<Vec<i32>> {
                         o.stdout.lines().find_map(|l| l.strip_prefix(tag)).map(|l| l.split_whitespace().filter_map(|f| f.parse::<i32>().ok()).filter(|f| *f >= 10).collect())
                     };
